@@ -1,1 +1,28 @@
 //! Verification hooks: `tls` (thin pass-through wrappers; feature `verif-hooks` only).
+//!
+//! Exposes, unchanged, the certificate verifiers that [`crate::tls::TlsConfig`] installs
+//! into every rustls client/server configuration and the endpoint-id <-> TLS-name codec.
+
+use std::sync::Arc;
+
+use iroh_base::EndpointId;
+
+/// The `ServerCertVerifier` used for outgoing connections.
+pub fn server_verifier() -> Arc<dyn rustls::client::danger::ServerCertVerifier> {
+    crate::tls::verif_access::server_verifier()
+}
+
+/// The `ClientCertVerifier` used for incoming connections.
+pub fn client_verifier() -> Arc<dyn rustls::server::danger::ClientCertVerifier> {
+    crate::tls::verif_access::client_verifier()
+}
+
+/// [`crate::tls::name::encode`].
+pub fn name_encode(id: EndpointId) -> String {
+    crate::tls::name::encode(id)
+}
+
+/// [`crate::tls::name::decode`].
+pub fn name_decode(name: &str) -> Option<EndpointId> {
+    crate::tls::name::decode(name)
+}
